@@ -138,7 +138,9 @@ def run(ctx):
                               "with truncation / size-field / large-size corruption, both decode paths; A: all shape lists up to the given length "
                               "over 29 letters x decode options (reader/SR x normal/lazy x flags none/ISM/start-on-moof) + random longer lists, "
                               "observables: outcome class, grouping, StartPos, Info x3, Encode/EncodeSW x2 modes; C: count/length-field inflation of "
-                              "the 29 modelled table boxes (every version/flags variant x field x 12 values, compact/large header, trailing "
+                              "the 29 modelled table boxes (every version/flags variant x field x 12 values + the counts that SOLVE the size guard modulo 2^16 / 2^31 / 2^32 "
+                              "for box sizes L, L+-4, L+8 with the per-entry size measured on the variant, and for the other 16/32-bit fields the values that keep h + v*e "
+                              "unchanged modulo 2^K for e of 2-adic valuation 0..4; compact/large header, trailing "
                               "bytes, 0..3 and 16384 real entries) + random corruption of those, each on both paths; observables: outcome class, "
                               "decoded entry count, log2 bucket of the bytes allocated; Q: every senc case x perSampleIVSize 0/8/16/1 x both paths "
                               "through decode then ParseReadBox: both classes, len(IVs), len(SubSamples), allocation bucket",
